@@ -46,6 +46,29 @@ def jobs(tier):
             j.canary = False
             j.imported = True
             J.append(j)
+    # failing exits of _vnacal_new_solve_internal after a successful earlier solve (numeric solvers by assumed contract)
+    srcs = [x for x in sorted(set(C20.BASE + C20.SOLVE + C20.common_sources() + ["vnacal_new_set_pvalue_limit.c", "vnacal_make_unknown_parameter.c", "vnacal_delete_parameter.c"]))
+            if x not in ("vnacal_new_solve_simple.c", "vnacal_new_solve_auto.c", "vnacal_new_solve_trl.c",
+                         "vnacal_new_solve_pvalue.c")]
+    variants = [("VNACAL_T8", 1, 1, 1, 0, 0, 0), ("VNACAL_T8", 1, 1, 0, 0, 0, 0), ("VNACAL_T8", 1, 1, 1, 1, 0, 0),
+                ("VNACAL_UE14", 1, 1, 1, 0, 0, 0), ("VNACAL_T8", 1, 1, 1, 0, 1, 0), ("VNACAL_T8", 1, 1, 1, 0, 0, 1)]
+    if tier != "quick":
+        variants += [("VNACAL_E12", 1, 1, 1, 0, 0, 0), ("VNACAL_U8", 1, 1, 1, 1, 0, 0), ("VNACAL_TE10", 1, 1, 1, 0, 0, 0),
+                     ("VNACAL_UE10", 1, 1, 1, 0, 0, 0), ("VNACAL_T8", 1, 1, 0, 1, 0, 0), ("VNACAL_UE14", 1, 1, 1, 1, 0, 0)]
+    for (t, r, c, prior, unk, merr, trl) in variants:
+        d = C20.CUT + ["-DCAL_TYPE=%s" % t, "-DCAL_ROWS=%d" % r, "-DCAL_COLS=%d" % c, "-DPRIOR=%d" % prior, "-DIS_TRL=%d" % trl] + \
+            (["-DWITH_UNKNOWN"] if unk else []) + (["-DWITH_M_ERROR"] if merr else [])
+        J.append(V.Job("solve_frame.%s_%dx%d_prior%d%s%s%s" % (t[7:], r, c, prior, "_unknown" if unk else "", "_merror" if merr else "",
+                                                                  "_trl" if trl else ""),
+                       "vnacal/c11_solve.c", "h_solve_frame", srcs, defines=d, unwind=20, union_struct=True, kind="bounded",
+                       canary=(t == "VNACAL_T8" and prior and not unk and not merr and not trl),
+                       functions=["vnacal_new_solve", "_vnacal_new_solve_internal", "_vnacal_new_solve_init",
+                                  "_vnacal_new_solve_start_frequency", "_vnacal_new_solve_free",
+                                  "_vnacal_calibration_alloc", "_vnacal_calibration_free", "convert_ue14_to_e12"],
+                       bound="%s %dx%d, 2 frequencies, short/open/match on port 1 (match %s), earlier result %s, m_error %s; "
+                             "solver outcome per frequency and all values symbolic" % (t, r, c, "unknown" if unk else "known",
+                                                                                     "present" if prior else "absent", "on" if merr else "off"),
+                       timeout=300, cbmc_flags=["--slice-formula"]))
     return J
 
 
@@ -54,6 +77,8 @@ ASSUME = [
     "the refusal/unchanged clauses for vnadata_* and the vnacal tables are those of the C15/C16 harnesses (re-run here); see their assumptions",
     "vnacal_new_add_* build-then-link and failed-solve-is-retryable are checked along the concrete histories of the C20 harnesses (re-run here); not covered: errno/callback behaviour of the file loaders and savers (stdio)",
 ]
+ASSUME.append("solve_frame: the per-frequency numeric solvers (_vnacal_new_solve_simple/_auto/_trl, _is_trl, _calc_pvalue) are replaced by assumed "
+              "contracts (fail with one report or fill x_vector; never touch vn_calibration); the frame of _vnacal_new_solve_internal around them is the real code")
 TRUSTED = ["CBMC 6.11 DFCC (goto-instrument --dfcc --enforce-contract)", "stubs/verif_err.c", "stubs/verif_libc.c"]
 
 
